@@ -348,6 +348,10 @@ def check(case, ctx) -> Result:
     model = {t: (m.val(), m.is_valid(), m.modified(), getattr(m, "count", None)) for t, m in snapshot_replay(schema, case["script"])}
     # tick window: the element pushed out by this cycle's push (None after a clear / when nothing was evicted)
     evicted = {t: (m.evicted if getattr(m, "evicted_at", None) == t else None) for t, m in snapshot_replay(schema, case["script"])} if schema[0] == "TSW" and not isinstance(schema[2], tuple) else {}
+    if schema[0] == "TSW" and isinstance(schema[2], tuple):
+        # duration window: a push that prunes nothing leaves no removed value to read (which of several pruned entries a pruning
+        # push reports is not stated anywhere: not compared)
+        evicted = {t: None for t, m in snapshot_replay(schema, case["script"]) if getattr(m, "evicted_at", None) == t and getattr(m, "pruned_now", 0) == 0}
     kinds = classify(schema, case["script"])
     f6_t = first_erase_rewrite(case["script"])
     if f6_t is not None:
